@@ -49,6 +49,28 @@ func resolvedNames(root ast.Vertex) (string, *obs.Panic) {
 
 // c13Run executes one operation and returns its output.
 func c13Run(op string, root ast.Vertex, src []byte) (string, *obs.Panic) {
+	return c13RunWith(op, root, src, false)
+}
+
+// c13RunWith: with long, the dump operations go through the worker's long-lived Dumper objects (one per option
+// set, used for every tree and every history of the worker) — "any number of times" includes the operator
+// object being the same one; the output must still be the output of a new dumper on a fresh tree.
+func c13RunWith(op string, root ast.Vertex, src []byte, long bool) (string, *obs.Panic) {
+	if long {
+		switch op {
+		case "dump":
+			return dumpTreeLongLived(root, dumpOpts{false, false})
+		case "dump+tokens":
+			return dumpTreeLongLived(root, dumpOpts{true, false})
+		case "dump+positions":
+			return dumpTreeLongLived(root, dumpOpts{false, true})
+		case "dump+tokens+positions":
+			return dumpTreeLongLived(root, dumpOpts{true, true})
+		case "traverse(null)":
+			p := obs.Try(func() { c13LongTraverser.Traverse(root) })
+			return "", p
+		}
+	}
 	switch op {
 	case "print":
 		pv, p := printTree(root, src)
@@ -91,6 +113,8 @@ func c13Run(op string, root ast.Vertex, src []byte) (string, *obs.Panic) {
 	return "", nil
 }
 
+var c13LongTraverser = traverser.NewTraverser(&visitor.Null{})
+
 func c13Case(c *core.Ctx, pc parseCase, r *core.Rand, concurrent bool) {
 	c.Inflight(pc.Src, "C13 "+pc.Ver)
 	g := obs.NewGuard(pc.Src)
@@ -113,12 +137,17 @@ func c13Case(c *core.Ctx, pc parseCase, r *core.Rand, concurrent bool) {
 	}
 	before := obs.Fingerprint(pr.Root, true)
 	w0 := core.W(pc.Src, pc.Ver)
+	long := !concurrent && r.Chance(1, 2)
+	if long {
+		c.Add("histories_with_long_lived_operator_objects", 1)
+		w0 = w0.With("operator_objects", "the worker's long-lived Dumper/Traverser objects")
+	}
 	history := func(rr *core.Rand, n int, report bool) []string {
 		var hist []string
 		for i := 0; i < n; i++ {
 			op := c13Ops[rr.Intn(len(c13Ops))]
 			hist = append(hist, op)
-			out, p := c13Run(op, pr.Root, src)
+			out, p := c13RunWith(op, pr.Root, src, long)
 			if !report {
 				continue
 			}
@@ -134,6 +163,13 @@ func c13Case(c *core.Ctx, pc parseCase, r *core.Rand, concurrent bool) {
 				prev := "first operation"
 				if len(hist) > 1 {
 					prev = hist[len(hist)-2]
+				}
+				if long {
+					// a long-lived operator object that has gone wrong is replaced, so that one defect is not reported for every later tree
+					for k := range c16Long {
+						delete(c16Long, k)
+					}
+					c13LongTraverser = traverser.NewTraverser(&visitor.Null{})
 				}
 				c.Violation("history|output-differs|"+op+"|after:"+prev, fmt.Sprintf("output of %s after the history %v differs from its output on a fresh tree: %s", op, hist[:len(hist)-1], obs.FirstDiff(base[op], out)), w)
 				return hist
@@ -210,7 +246,7 @@ func c13Where(a, b string) string {
 func init() {
 	core.Register(&core.Check{
 		ID:   "C13",
-		Rule: "cases = known-finding witnesses ++ trees parsed from the shared workload (corpus, hostile inputs incl. trees with errors, generated programs of both families with namespaces/imports, block-crossing concatenations); per tree one PRNG history of 4..16 operations over {print, print in PHP state, print of a subtree, dump x 4 option sets, traverse(null), traverse(recording), resolve names, Accept(null)}; after every operation: pointer-level fingerprint + guarded source unchanged, output equal to the fresh-tree output; a race-detector twin (C13R, built with -race) runs two histories concurrently on one tree for 1500 (quick) / 60000 (thorough) trees; non-trivial = tree with >= 3 nodes; distinct by (input, version, history)",
+		Rule: "cases = known-finding witnesses ++ trees parsed from the shared workload (corpus, hostile inputs incl. trees with errors, generated programs of both families with namespaces/imports, block-crossing concatenations); per tree one PRNG history of 4..16 operations over {print, print in PHP state, print of a subtree, dump x 4 option sets, traverse(null), traverse(recording), resolve names, Accept(null)}, for half of the trees with the dump and traverse operations going through the worker's long-lived Dumper / Traverser objects (used for every tree before); after every operation: pointer-level fingerprint + guarded source unchanged, output equal to the fresh-tree output; a race-detector twin (C13R, built with -race) runs two histories concurrently on one tree for 1500 (quick) / 60000 (thorough) trees; non-trivial = tree with >= 3 nodes; distinct by (input, version, history)",
 		Assumptions: []string{
 			"the pointer-level fingerprint covers every exported field reachable by reflection, including node/token/position addresses, slice lengths, capacities and data pointers, and the bytes of every value",
 			"resolver output is compared as the sorted list kind@span=name (node addresses differ between two parses)",
